@@ -8,6 +8,7 @@ import json
 
 TERMINAL = ("succeeded", "failed", "canceled", "timeout", "abandoned")
 STARTING = ("requested", "scheduled", "delayed", "running")
+ACTIVE = ("requested", "scheduled", "delayed", "running", "pausing", "canceling", "resuming", "retrying", "pending", "paused")
 CMDS = ("noop", "fail", "continue", "retry")
 INTERNAL = ("KeyError", "TypeError", "AttributeError", "IndexError", "ValueError", "InvalidEvent",
             "InvalidStatus", "InvalidEventType", "InvalidTaskStatusTransition", "Exception")
@@ -134,7 +135,39 @@ def rearrival_region(s, i):
     join below all, a cycle plus a join/with-items task, or a rerun upstream of a with-items task"""
     if has_count_join_below_all(s):
         return True
-    return had_rerun(s, i) and any(t.get("with") is not None for t in s["def"]["tasks"])
+    return rerun_upstream_of_items(s, i)
+
+
+def rerun_upstream_of_items(s, i):
+    """an accepted rerun re-executed a task from which a with-items task is reachable (the
+    with-items task, already run, is then reached again)"""
+    items = set(t["name"] for t in s["def"]["tasks"] if t.get("with") is not None)
+    if not items:
+        return False
+    td = tasks_def(s)
+
+    def downstream(n):
+        seen, todo = set(), [n]
+        while todo:
+            x = todo.pop()
+            for tr in td.get(x, {}).get("next", []):
+                for d in tr["do"]:
+                    if d in td and d not in seen:
+                        seen.add(d)
+                        todo.append(d)
+        return seen
+    for j, o in enumerate(s["ops"][:i + 1]):
+        if o["op"] != "rerun" or raised(s["replies"][j]):
+            continue
+        st = s["replies"][j].get("state") or {}
+        picked = st.get("reruns", [[]])[-1] if st.get("reruns") else []
+        names = set(st["sequence"][k]["id"] for k in picked if k < len(st.get("sequence", [])))
+        names |= set(q["task"] for q in o.get("reqs", []))
+        # tasks that continue after the rerun (terminal records whose transitions fired) count too
+        for n in names:
+            if downstream(n) & items:
+                return True
+    return False
 
 
 def region_of(s, i):
@@ -179,7 +212,8 @@ def mon_C02(s):
                     if t["status"] in ("failed", "timeout", "abandoned") and t["id"] not in CMDS and not any(t["next"].values()):
                         out.append(V("succeeded with unhandled failure of %s" % t["id"], i))
         if status in ("paused", "canceled") and infl:
-            out.append(V("%s with actions in flight %s" % (status, sorted(map(str, infl))), i))
+            out.append(V("%s with actions in flight %s" % (status, sorted(map(str, infl))), i,
+                         "D2" if rearrival_region(s, i) else None))
         if status in ("pausing", "canceling") and not infl and op["op"] in ("report", "req", "next"):
             out.append(V("%s with nothing in flight" % status, i, region_of(s, i)))
         # failure => failed
@@ -232,7 +266,9 @@ def mon_C03(s):
             if status == "resuming" and had_rerun(s, i):
                 # D8: an accepted rerun with nothing to re-execute
                 last_rerun = max(j for j, o in enumerate(s["ops"][:i + 1]) if o["op"] == "rerun")
-                if not any(o["op"] == "report" for o in s["ops"][last_rerun:i + 1]):
+                after = s["replies"][last_rerun].get("state") or {}
+                nothing_picked = bool(after.get("reruns")) and after["reruns"][-1] == []
+                if nothing_picked and not any(o["op"] == "report" for o in s["ops"][last_rerun:i + 1]):
                     finding = "D8"
             if finding is None:
                 finding = region_of(s, i)
@@ -411,7 +447,8 @@ def mon_C12(s):
                 if isinstance(conc, int) and not isinstance(conc, bool):
                     active = [x for x in led[i][0] if x[0] == o["id"] and x[1] == o["route"] and x[2] is not None]
                     if len(active) + len(ids) > max(conc, 1):
-                        out.append(V("concurrency %s exceeded for %s: %d active + %d offered" % (conc, o["id"], len(active), len(ids)), i))
+                        out.append(V("concurrency %s exceeded for %s: %d active + %d offered" % (conc, o["id"], len(active), len(ids)), i,
+                                     region_of(s, i)))
                 if o["items_count"] == 0 and o["actions"]:
                     out.append(V("empty items list offered with actions", i))
     return out
@@ -421,10 +458,29 @@ def mon_C13(s):
     out = []
     prev = None
     td = tasks_def(s)
+    attempts = {}     # record index -> executions started, counted from the reports alone
     for i, (op, r) in enumerate(zip(s["ops"], s["replies"])):
         st = r.get("state")
         if st is None:
             continue
+        if op["op"] == "rerun":
+            attempts = {}
+        if prev is not None and op["op"] == "report" and op["status"] == "running" and op.get("item") is None \
+                and not raised(r):
+            key = "%s__r%s" % (op["task"], op["route"])
+            idx, was = st["tasks"].get(key), prev["tasks"].get(key)
+            d = td.get(op["task"])
+            if idx is not None and d and d.get("with") is None:
+                if idx != was:
+                    attempts[idx] = 1
+                elif prev["sequence"][idx]["status"] == "retrying" and st["sequence"][idx]["status"] == "running":
+                    attempts[idx] = attempts.get(idx, 1) + 1
+                if d.get("retry") is not None and "lit" in d["retry"]["count"] and isinstance(d["retry"]["count"]["lit"], int) \
+                        and not any("retry" in tr["do"] for tr in d["next"]):
+                    want = max(d["retry"]["count"]["lit"], 0)
+                    if attempts.get(idx, 1) > want + 1:
+                        out.append(V("one visit of task %s was executed %d times, its retry policy allows %d" % (
+                            op["task"], attempts[idx], want + 1), i))
         for t in st["sequence"]:
             rt = t.get("retry")
             if rt and isinstance(rt["count"], int) and not isinstance(rt["count"], bool) and rt["tally"] > max(rt["count"], 0):
@@ -505,6 +561,18 @@ def mon_C07(s):
                 t = td.get(x["id"])
                 if t and t.get("join") is not None and not x["ready"]:
                     out.append(V("succeeded with an unsatisfied staged join %s" % x["id"], i))
+        # a task report that leaves the workflow failed with a partially satisfied join that was
+        # never made ready must have logged the unreachable-join error for it
+        if op["op"] == "report" and not raised(r) and st["status"] == "failed" and not had_rerun(s, i) \
+                and not has_count_join_below_all(s) \
+                and i > 0 and (s["replies"][i - 1].get("state") or {}).get("status") not in ("succeeded", "failed", "canceled") \
+                and not any(t["status"] in ACTIVE for t in st["sequence"]) and not ready_staged(st):
+            # (nothing is running and nothing else could still run: the join can no longer be satisfied)
+            logged = set((e[1], e[2]) for e in st["errors"] if e[0] == "UnreachableJoinError")
+            for x in st["staged"]:
+                t = td.get(x["id"])
+                if t and t.get("join") is not None and not x["ready"] and x["prev"] and (x["id"], x["route"]) not in logged:
+                    out.append(V("workflow failed while join %s was partially satisfied and no unreachable-join error was logged for it" % x["id"], i))
     return out
 
 
@@ -601,18 +669,26 @@ def mon_C01(s):
                     key = "%s__t%s" % (o["id"], tid.rsplit("__t", 1)[1])
                     if rec["status"] not in TERMINAL or not rec["next"].get(key):
                         out.append(V("task %s offered through an unsatisfied transition from %s" % (o["id"], rec["id"]), i))
-    # decisions agree with the reference semantics of the simple conditions
+    # decisions agree with an independent evaluation of the condition on what the predecessor saw
     for i, (op, r) in enumerate(zip(s["ops"], s["replies"])):
         st = r.get("state")
         if op["op"] != "report" or st is None or op.get("item") is not None or raised(r):
             continue
         idx = st["tasks"].get("%s__r%s" % (op["task"], op["route"]))
         t = td.get(op["task"])
-        if idx is None or not t:
+        if idx is None or not t or t.get("with") is not None:
             continue
         rec = st["sequence"][idx]
         if rec["status"] not in ("succeeded", "failed") or op["status"] not in ("succeeded", "failed"):
             continue
+        env = None
+        try:
+            cx = {}
+            for ci in rec["ctxs_in"]:
+                cx = _merge(cx, json.loads(json.dumps(st["contexts"][ci])))
+            env = {"ctx": cx, "status": rec["status"], "result": op.get("result")}
+        except Exception:
+            env = None
         # map edges (dst,key) -> transition via the order the composer assigns keys
         keys = {}
         for ref, tr in enumerate(t["next"]):
@@ -628,19 +704,74 @@ def mon_C01(s):
                 seen.append(ref)
             for k, ref in enumerate(seen):
                 w = t["next"][ref]["when"]
-                exp = None
-                if w is None:
-                    exp = True
-                elif w == {"fn": "succeeded"}:
-                    exp = rec["status"] == "succeeded"
-                elif w == {"fn": "failed"}:
-                    exp = rec["status"] == "failed"
-                elif w == {"fn": "completed"}:
-                    exp = True
+                exp = True if w is None else None
+                if w is not None and env is not None:
+                    val = refeval(w, env)
+                    if val is not UNKNOWN:
+                        exp = bool(val)
                 got = rec["next"].get("%s__t%d" % (d, k))
-                if exp is not None and got is not None and got != exp:
-                    out.append(V("transition %s -> %s (%s) decided %s, condition says %s" % (op["task"], d, k, got, exp), i))
+                if exp is not None and got is not None and got is not exp:
+                    out.append(V("transition %s -> %s (%s) decided %r, its condition evaluates to %s on what the task saw" % (
+                        op["task"], d, k, got, exp), i))
     return out
+
+
+UNKNOWN = object()
+
+
+def _scalar(v):
+    return v is None or isinstance(v, (bool, int, str))
+
+
+def refeval(e, env):
+    """independent evaluation of the unambiguous part of the expression fragment; UNKNOWN when
+    the two expression languages could disagree or the expression would fail"""
+    from harness import render
+    if "lit" in e:
+        return render.undict(e["lit"])
+    if "ctx" in e:
+        return env["ctx"].get(e["ctx"], UNKNOWN) if not e["ctx"].startswith("__") else UNKNOWN
+    if "ctxkey" in e:
+        d = env["ctx"].get(e["ctxkey"], UNKNOWN)
+        if not isinstance(d, dict) or e["k"] not in d:
+            return UNKNOWN
+        return d[e["k"]]
+    if "fn" in e:
+        if e["fn"] == "succeeded":
+            return env["status"] == "succeeded"
+        if e["fn"] == "failed":
+            return env["status"] == "failed"
+        if e["fn"] == "completed":
+            return True
+        if e["fn"] == "result":
+            return env["result"]
+        return UNKNOWN
+    if "not" in e:
+        v = refeval(e["not"], env)
+        return (not v) if isinstance(v, bool) else UNKNOWN
+    if "op" in e:
+        a, b = refeval(e["a"], env), refeval(e["b"], env)
+        if a is UNKNOWN or b is UNKNOWN:
+            return UNKNOWN
+        o = e["op"]
+        if o in ("and", "or"):
+            if not (isinstance(a, bool) and isinstance(b, bool)):
+                return UNKNOWN
+            return (a and b) if o == "and" else (a or b)
+        if o == "lt":
+            if isinstance(a, bool) or isinstance(b, bool) or not (isinstance(a, int) and isinstance(b, int)):
+                return UNKNOWN
+            return a < b
+        if o == "eq":
+            if not (_scalar(a) and _scalar(b)) or (isinstance(a, bool) != isinstance(b, bool)):
+                return UNKNOWN
+            return a == b
+        if o == "add":
+            if isinstance(a, bool) or isinstance(b, bool) or not (isinstance(a, int) and isinstance(b, int)):
+                return UNKNOWN
+            return a + b
+        return UNKNOWN
+    return UNKNOWN
 
 
 def _merge(left, right):
